@@ -18,6 +18,8 @@ AUTO_SINKS = {
     'FiniteStateMachine.on_shutdown': 'automatic Supvisors shutdown (running failure strategy)',
 }
 
+from . import shared
+
 
 def listener_entries(P):
     L = P.cls('SupervisorListener')
@@ -35,6 +37,142 @@ def listener_entries(P):
             raise AnalysisError('subscribed callback %s is not a method of SupervisorListener' % nm)
         out.append((L, L.methods[nm]))
     return out, names
+
+
+def rule_master(P, R, r3):
+    """who writes the recognised Master, when it is reset, how select_master chooses (shared with C02: a Master-driven
+    state is only entered behind a Master seen RUNNING)."""
+    SSM = P.cls('SupvisorsStateModes')
+    ALLOWED = {'SupvisorsStateModes.select_master', 'SupvisorsStateModes.accept_master',
+               'SupvisorsStateModes.update_instance_state', 'FiniteStateMachine.on_end_sync'}
+    found = set()
+    for u in P.all_units():
+        env = None
+        for n in own_nodes(u.node):
+            if isinstance(n, ast.Attribute) and isinstance(n.ctx, ast.Store) and n.attr == 'master_identifier':
+                env = env or P.env(u, u.cls)
+                t = env.typeof(n.value)
+                rtxt = ast.unparse(n.value)
+                if (t and t[0] == 'inst' and t[1] is SSM) or (t is None and rtxt.split('.')[-1] == 'state_modes'):
+                    found.add(u.qual)
+                    R.check(r3, u.qual in ALLOWED, '%s writes the recognised Master' % u.qual,
+                            'master-writer|%s' % u.qual, u.loc(n), '%s assigns SupvisorsStateModes.master_identifier; '
+                            'only %s may' % (u.qual, sorted(ALLOWED)))
+    R.require(len(found & ALLOWED) >= 4, 'writers of master_identifier found: %s' % sorted(found))
+    u = P.unit('SupvisorsStateModes.update_instance_state')
+    fm = factmap(u)
+    resets = [n for n in own_nodes(u.node) if isinstance(n, ast.Assign) and
+              ast.unparse(n.targets[0]) == 'self.master_identifier' and isinstance(n.value, ast.Constant)
+              and n.value.value == '']
+    ok = len(resets) == 1 and {tuple(f) for f in fm.at(resets[0])} == {
+        ('new_state == SupvisorsInstanceStates.RUNNING', False), ('new_state == SupvisorsInstanceStates.RUNNING', False),
+        ('identifier == self.master_identifier', True)}
+    R.check(r3, ok, 'the Master is forgotten exactly when it leaves RUNNING', 'master-reset|update_instance_state',
+            u.loc(resets[0] if resets else None), 'update_instance_state resets the Master under %s' %
+            [sorted(tuple(f) for f in fm.at(r)) for r in resets])
+    setter = P.unit('SupvisorsInstanceStatus.state[set]')
+    ex = []
+    calls = [c for c in own_nodes(setter.node) if isinstance(c, ast.Call)
+             and call_text(c) == 'self.supvisors.state_modes.update_instance_state']
+    ok = len(calls) == 1 and [ast.unparse(a) for a in calls[0].args] == ['self.identifier', 'new_state'] and \
+        {tuple(f) for f in factmap(setter).at(calls[0])} <= {('new_state == self._state', False),
+                                                             ('new_state == self._state', False),
+                                                             ('self.check_transition(new_state)', True)}
+    R.check(r3, ok, 'every instance state change is forwarded to update_instance_state', 'master-reset|state-setter',
+            setter.loc(), 'the instance state setter does not forward every accepted change to update_instance_state')
+    sm = P.unit('SupvisorsStateModes.select_master')
+    asg = [n for n in own_nodes(sm.node) if isinstance(n, ast.Assign) and
+           ast.unparse(n.targets[0]) == 'self.master_identifier']
+    R.require(len(asg) == 1, 'select_master: expected one assignment of master_identifier')
+    v = asg[0].value
+    ok = isinstance(v, ast.Call) and call_text(v) == 'min' and len(v.args) == 1 and any(
+        k.arg == 'key' and isinstance(k.value, ast.Lambda) and ast.unparse(k.value.body).endswith('.nick_identifier')
+        for k in v.keywords)
+    R.check(r3, ok, 'select_master picks the lowest nick identifier among the candidates', 'select|min-nick',
+            sm.loc(asg[0]), 'select_master assigns %s instead of min(candidates, key=nick identifier)' % ast.unparse(v))
+    cand = v.args[0].id if ok and isinstance(v.args[0], ast.Name) else None
+    defs = {n.targets[0].id: n.value for n in own_nodes(sm.node) if isinstance(n, ast.Assign) and
+            isinstance(n.targets[0], ast.Name)}
+    cv = defs.get(cand)
+    ok2 = isinstance(cv, ast.BoolOp) and isinstance(cv.op, ast.Or) and len(cv.values) == 2 and \
+        all(isinstance(x, ast.Name) for x in cv.values)
+    core_ok = all_ok = False
+    if ok2:
+        core, allc = defs.get(cv.values[0].id), cv.values[1].id
+        core_ok = isinstance(core, ast.ListComp) and ast.unparse(core.generators[0].iter) == 'self.mapper.core_identifiers' \
+            and [ast.unparse(i) for i in core.generators[0].ifs] == ['%s in %s' % (core.generators[0].target.id, allc)]
+        # all candidates: declared masters first, running instances only when there is none
+        stmts = [ast.unparse(s) for s in sm.node.body if not isinstance(s, ast.Expr)]
+        a = '%s = self.get_master_identifiers()' % allc
+        b = "if '' in %s:\n    %s.remove('')" % (allc, allc)       # canonical spelling of allc.discard('')
+        fall = [n for n in own_nodes(sm.node) if isinstance(n, ast.Assign) and isinstance(n.targets[0], ast.Name)
+                and n.targets[0].id == allc and 'running_identifiers()' in ast.unparse(n.value)]
+        all_ok = a in stmts and any(ast.unparse(s) == b for s in sm.node.body) and len(fall) == 1 and \
+            {tuple(f) for f in factmap(sm).at(fall[0])} == {(allc, False)}
+    R.check(r3, ok2 and core_ok, 'core instances have priority among the candidates', 'select|core-first', sm.loc(),
+            'select_master does not restrict the candidates to the core identifiers when one of them is a candidate')
+    R.check(r3, ok2 and all_ok, 'Masters already declared by RUNNING instances have priority over electing anew',
+            'select|declared-first', sm.loc(), 'select_master does not take the declared Masters first and the '
+            'running instances only when none is declared')
+
+
+def rule_stability(P, R, r5):
+    """the stability gate of the election (shared with C02)."""
+    u = P.unit('StateModes.get_stable_running_identifiers')
+    # `set()` is returned as soon as ONE peer state is outside STABLE_STATES: either from inside the loop over the
+    # states, or under `any(state not in STABLE_STATES for ..)` (closed forms: no binder names)
+    empties = [(facts, n) for v, facts, n in returns(u) if isinstance(v, ast.Call) and ast.unparse(v) == 'set()'
+               and facts]
+    ok = False
+    if len(empties) == 1:
+        facts, n = empties[0]
+        for src in ('each(self.instance_states.items())[1]', 'each(self.instance_states.values())'):
+            if (src + ' in StateModes.STABLE_STATES', False) in factmap(u).closed(n):
+                ok = True
+        for f in facts:
+            g = f.node
+            if f[1] and isinstance(g, ast.Call) and call_text(g) == 'any' and len(g.args) == 1:
+                cv = comp_view(u, g.args[0])
+                if cv and isinstance(cv['elt'], str) and cv['iters'] in (['self.instance_states.values()'],
+                                                                         ['self.instance_states.items()']):
+                    at = cond_atoms([ast.parse(cv['elt'], mode='eval').body]) | cv['conds']
+                    src = 'each(%s)%s' % (cv['iters'][0], '[1]' if cv['iters'][0].endswith('items()') else '')
+                    if at == {(src + ' in StateModes.STABLE_STATES', False)}:
+                        ok = True
+    runs = [v for v, facts, n in returns(u) if v is not None and ast.unparse(v) != 'set()']
+    ok = ok and len(runs) == 1
+    stable = P.member(P.cls('StateModes'), 'STABLE_STATES')
+    members = sorted(x.attr for x in ast.walk(stable[2][1]) if isinstance(x, ast.Attribute)
+                     and isinstance(x.value, ast.Name) and x.value.id == 'SupvisorsInstanceStates') if stable else []
+    R.check(r5, ok and members == ['ISOLATED', 'RUNNING', 'STOPPED'],
+            'a view holding a transient peer state (CHECKING, CHECKED, FAILED) is not stable', 'stable|definition',
+            u.loc(), 'get_stable_running_identifiers / STABLE_STATES=%s do not reject transient peer states' % members)
+    u = P.unit('SupvisorsStateModes.evaluate_stability')
+    fm = factmap(u)
+    # closed forms: the set stored is element 0 of the list L of the views of the RUNNING instances, under the facts
+    # "L is not empty" and "every element of L equals L[0]" (whatever locals hold L, L[0] or the result)
+    du = defuse(u)
+    vals = [(du.closed(v), {(t, pol) for t, pol in fm.closed(n)} | {(closed_text(u, ast.parse(f[0], mode='eval').body), f[1])
+                                                                  for f in facts}, n)
+            for v, facts, n in assigned_values(u, 'self.stable_identifiers')]
+    good = [(v, fs, n) for v, fs, n in vals if ast.unparse(v) != 'set()']
+    ok = False
+    if len(good) == 1:
+        v, fs, n = good[0]
+        if isinstance(v, ast.Subscript) and ast.unparse(v.slice) == '0' and isinstance(v.value, ast.ListComp):
+            L = ast.unparse(v.value)
+            cv = comp_view(u, v.value)
+            agree = ctext('all((each(%s) == %s[0] for _ in %s))' % (L, L, L))
+            ok = (L, True) in fs and any(pol and ctext(t) == agree for t, pol in fs) and \
+                cv['iters'] == ['self.instance_state_modes.items()'] and \
+                cv['elt'] == 'each(self.instance_state_modes.items())[1].get_stable_running_identifiers()' and \
+                cv['conds'] == {('self.is_running(each(self.instance_state_modes.items())[0])', True)}
+    R.check(r5, ok, 'stable identifiers are set only when all RUNNING instances agree', 'stable|agreement', u.loc(),
+            'evaluate_stability sets stable_identifiers without requiring all RUNNING instances to report the same set')
+    u = P.unit('SupvisorsStateModes.is_stable')
+    rs = [ast.unparse(v) for v, f, n in returns(u) if v is not None]
+    R.check(r5, rs in (['len(self.stable_identifiers) > 0'], ['bool(self.stable_identifiers)']),
+            'is_stable() is "the agreed set is not empty"', 'stable|is_stable', u.loc(), 'is_stable returns %s' % rs)
 
 
 def run(P, R):
@@ -178,78 +316,7 @@ def run(P, R):
                 'identifier under new_state != RUNNING and identifier == master_identifier) and is written nowhere '
                 'else than select_master, accept_master, update_instance_state and FiniteStateMachine.on_end_sync',
                 5)
-    SSM = P.cls('SupvisorsStateModes')
-    ALLOWED = {'SupvisorsStateModes.select_master', 'SupvisorsStateModes.accept_master',
-               'SupvisorsStateModes.update_instance_state', 'FiniteStateMachine.on_end_sync'}
-    found = set()
-    for u in P.all_units():
-        env = None
-        for n in own_nodes(u.node):
-            if isinstance(n, ast.Attribute) and isinstance(n.ctx, ast.Store) and n.attr == 'master_identifier':
-                env = env or P.env(u, u.cls)
-                t = env.typeof(n.value)
-                rtxt = ast.unparse(n.value)
-                if (t and t[0] == 'inst' and t[1] is SSM) or (t is None and rtxt.split('.')[-1] == 'state_modes'):
-                    found.add(u.qual)
-                    R.check(r3, u.qual in ALLOWED, '%s writes the recognised Master' % u.qual,
-                            'master-writer|%s' % u.qual, u.loc(n), '%s assigns SupvisorsStateModes.master_identifier; '
-                            'only %s may' % (u.qual, sorted(ALLOWED)))
-    R.require(len(found & ALLOWED) >= 4, 'writers of master_identifier found: %s' % sorted(found))
-    u = P.unit('SupvisorsStateModes.update_instance_state')
-    fm = factmap(u)
-    resets = [n for n in own_nodes(u.node) if isinstance(n, ast.Assign) and
-              ast.unparse(n.targets[0]) == 'self.master_identifier' and isinstance(n.value, ast.Constant)
-              and n.value.value == '']
-    ok = len(resets) == 1 and {tuple(f) for f in fm.at(resets[0])} == {
-        ('new_state == SupvisorsInstanceStates.RUNNING', False), ('new_state == SupvisorsInstanceStates.RUNNING', False),
-        ('identifier == self.master_identifier', True)}
-    R.check(r3, ok, 'the Master is forgotten exactly when it leaves RUNNING', 'master-reset|update_instance_state',
-            u.loc(resets[0] if resets else None), 'update_instance_state resets the Master under %s' %
-            [sorted(tuple(f) for f in fm.at(r)) for r in resets])
-    setter = P.unit('SupvisorsInstanceStatus.state[set]')
-    ex = []
-    calls = [c for c in own_nodes(setter.node) if isinstance(c, ast.Call)
-             and call_text(c) == 'self.supvisors.state_modes.update_instance_state']
-    ok = len(calls) == 1 and [ast.unparse(a) for a in calls[0].args] == ['self.identifier', 'new_state'] and \
-        {tuple(f) for f in factmap(setter).at(calls[0])} <= {('new_state == self._state', False),
-                                                             ('new_state == self._state', False),
-                                                             ('self.check_transition(new_state)', True)}
-    R.check(r3, ok, 'every instance state change is forwarded to update_instance_state', 'master-reset|state-setter',
-            setter.loc(), 'the instance state setter does not forward every accepted change to update_instance_state')
-    sm = P.unit('SupvisorsStateModes.select_master')
-    asg = [n for n in own_nodes(sm.node) if isinstance(n, ast.Assign) and
-           ast.unparse(n.targets[0]) == 'self.master_identifier']
-    R.require(len(asg) == 1, 'select_master: expected one assignment of master_identifier')
-    v = asg[0].value
-    ok = isinstance(v, ast.Call) and call_text(v) == 'min' and len(v.args) == 1 and any(
-        k.arg == 'key' and isinstance(k.value, ast.Lambda) and ast.unparse(k.value.body).endswith('.nick_identifier')
-        for k in v.keywords)
-    R.check(r3, ok, 'select_master picks the lowest nick identifier among the candidates', 'select|min-nick',
-            sm.loc(asg[0]), 'select_master assigns %s instead of min(candidates, key=nick identifier)' % ast.unparse(v))
-    cand = v.args[0].id if ok and isinstance(v.args[0], ast.Name) else None
-    defs = {n.targets[0].id: n.value for n in own_nodes(sm.node) if isinstance(n, ast.Assign) and
-            isinstance(n.targets[0], ast.Name)}
-    cv = defs.get(cand)
-    ok2 = isinstance(cv, ast.BoolOp) and isinstance(cv.op, ast.Or) and len(cv.values) == 2 and \
-        all(isinstance(x, ast.Name) for x in cv.values)
-    core_ok = all_ok = False
-    if ok2:
-        core, allc = defs.get(cv.values[0].id), cv.values[1].id
-        core_ok = isinstance(core, ast.ListComp) and ast.unparse(core.generators[0].iter) == 'self.mapper.core_identifiers' \
-            and [ast.unparse(i) for i in core.generators[0].ifs] == ['%s in %s' % (core.generators[0].target.id, allc)]
-        # all candidates: declared masters first, running instances only when there is none
-        stmts = [ast.unparse(s) for s in sm.node.body if not isinstance(s, ast.Expr)]
-        a = '%s = self.get_master_identifiers()' % allc
-        b = "if '' in %s:\n    %s.remove('')" % (allc, allc)       # canonical spelling of allc.discard('')
-        fall = [n for n in own_nodes(sm.node) if isinstance(n, ast.Assign) and isinstance(n.targets[0], ast.Name)
-                and n.targets[0].id == allc and 'running_identifiers()' in ast.unparse(n.value)]
-        all_ok = a in stmts and any(ast.unparse(s) == b for s in sm.node.body) and len(fall) == 1 and \
-            {tuple(f) for f in factmap(sm).at(fall[0])} == {(allc, False)}
-    R.check(r3, ok2 and core_ok, 'core instances have priority among the candidates', 'select|core-first', sm.loc(),
-            'select_master does not restrict the candidates to the core identifiers when one of them is a candidate')
-    R.check(r3, ok2 and all_ok, 'Masters already declared by RUNNING instances have priority over electing anew',
-            'select|declared-first', sm.loc(), 'select_master does not take the declared Masters first and the '
-            'running instances only when none is declared')
+    rule_master(P, R, r3)
 
     # ---------------------------------------------------------------- R4
     r4 = R.rule('R4', 'must-call in the changed branch',
@@ -306,61 +373,10 @@ def run(P, R):
     r5 = R.rule('R5', 'definition shape', 'stability gate: an instance view is stable only when every peer state is '
                 'RUNNING, STOPPED or ISOLATED; the context is stable only when all RUNNING instances report the same '
                 'non-empty set', 3)
-    u = P.unit('StateModes.get_stable_running_identifiers')
-    # `set()` is returned as soon as ONE peer state is outside STABLE_STATES: either from inside the loop over the
-    # states, or under `any(state not in STABLE_STATES for ..)` (closed forms: no binder names)
-    empties = [(facts, n) for v, facts, n in returns(u) if isinstance(v, ast.Call) and ast.unparse(v) == 'set()'
-               and facts]
-    ok = False
-    if len(empties) == 1:
-        facts, n = empties[0]
-        for src in ('each(self.instance_states.items())[1]', 'each(self.instance_states.values())'):
-            if (src + ' in StateModes.STABLE_STATES', False) in factmap(u).closed(n):
-                ok = True
-        for f in facts:
-            g = f.node
-            if f[1] and isinstance(g, ast.Call) and call_text(g) == 'any' and len(g.args) == 1:
-                cv = comp_view(u, g.args[0])
-                if cv and isinstance(cv['elt'], str) and cv['iters'] in (['self.instance_states.values()'],
-                                                                         ['self.instance_states.items()']):
-                    at = cond_atoms([ast.parse(cv['elt'], mode='eval').body]) | cv['conds']
-                    src = 'each(%s)%s' % (cv['iters'][0], '[1]' if cv['iters'][0].endswith('items()') else '')
-                    if at == {(src + ' in StateModes.STABLE_STATES', False)}:
-                        ok = True
-    runs = [v for v, facts, n in returns(u) if v is not None and ast.unparse(v) != 'set()']
-    ok = ok and len(runs) == 1
-    stable = P.member(P.cls('StateModes'), 'STABLE_STATES')
-    members = sorted(x.attr for x in ast.walk(stable[2][1]) if isinstance(x, ast.Attribute)
-                     and isinstance(x.value, ast.Name) and x.value.id == 'SupvisorsInstanceStates') if stable else []
-    R.check(r5, ok and members == ['ISOLATED', 'RUNNING', 'STOPPED'],
-            'a view holding a transient peer state (CHECKING, CHECKED, FAILED) is not stable', 'stable|definition',
-            u.loc(), 'get_stable_running_identifiers / STABLE_STATES=%s do not reject transient peer states' % members)
-    u = P.unit('SupvisorsStateModes.evaluate_stability')
-    fm = factmap(u)
-    # closed forms: the set stored is element 0 of the list L of the views of the RUNNING instances, under the facts
-    # "L is not empty" and "every element of L equals L[0]" (whatever locals hold L, L[0] or the result)
-    du = defuse(u)
-    vals = [(du.closed(v), {(t, pol) for t, pol in fm.closed(n)} | {(closed_text(u, ast.parse(f[0], mode='eval').body), f[1])
-                                                                  for f in facts}, n)
-            for v, facts, n in assigned_values(u, 'self.stable_identifiers')]
-    good = [(v, fs, n) for v, fs, n in vals if ast.unparse(v) != 'set()']
-    ok = False
-    if len(good) == 1:
-        v, fs, n = good[0]
-        if isinstance(v, ast.Subscript) and ast.unparse(v.slice) == '0' and isinstance(v.value, ast.ListComp):
-            L = ast.unparse(v.value)
-            cv = comp_view(u, v.value)
-            agree = ctext('all((each(%s) == %s[0] for _ in %s))' % (L, L, L))
-            ok = (L, True) in fs and any(pol and ctext(t) == agree for t, pol in fs) and \
-                cv['iters'] == ['self.instance_state_modes.items()'] and \
-                cv['elt'] == 'each(self.instance_state_modes.items())[1].get_stable_running_identifiers()' and \
-                cv['conds'] == {('self.is_running(each(self.instance_state_modes.items())[0])', True)}
-    R.check(r5, ok, 'stable identifiers are set only when all RUNNING instances agree', 'stable|agreement', u.loc(),
-            'evaluate_stability sets stable_identifiers without requiring all RUNNING instances to report the same set')
-    u = P.unit('SupvisorsStateModes.is_stable')
-    rs = [ast.unparse(v) for v, f, n in returns(u) if v is not None]
-    R.check(r5, rs in (['len(self.stable_identifiers) > 0'], ['bool(self.stable_identifiers)']),
-            'is_stable() is "the agreed set is not empty"', 'stable|is_stable', u.loc(), 'is_stable returns %s' % rs)
+    rule_stability(P, R, r5)
+    # an instance that stays CHECKING for ever keeps every view unstable: no election, no Master
+    shared.handshake_order(P, R, r5)
+    shared.transport_failure_posted(P, R, r5)
     R.assume('Convergence/agreement of N instances under all interleavings, and retention of the Master under joins '
              'and leaves, are NOT decided (they quantify over schedules); R1-R5 are necessary structural conditions.')
     R.assume('User-initiated entry points (XML-RPC, web UI) are exempt from R1: the statement says "automatically".')
